@@ -67,7 +67,7 @@ type c09Base struct {
 	Exchanges []*fed.WireExchange
 }
 
-func isChildQuery(q string) bool { return strings.Contains(q, "node(id: $id)") }
+func fwIsChildQuery(q string) bool { return strings.Contains(q, "node(id: $id)") }
 
 // ---- the property oracle ----------------------------------------------------------------------
 
@@ -86,7 +86,7 @@ func c09Signal(ex *fed.WireExchange) string {
 		return "notjson"
 	}
 	if _, err := dec.Token(); err != io.EOF {
-		return "notjson" // trailing garbage
+		return "notjson" // fwTrailing garbage
 	}
 	arr, ok := v.([]interface{})
 	if !ok {
@@ -100,14 +100,14 @@ func c09Signal(ex *fed.WireExchange) string {
 		if !ok {
 			return "nodata"
 		}
-		if es, ok := lookupFold(m, "errors").([]interface{}); ok && len(es) > 0 {
+		if es, ok := c09LookupFold(m, "errors").([]interface{}); ok && len(es) > 0 {
 			return "errors"
 		}
-		d, present := lookupFoldOK(m, "data")
+		d, present := c09LookupFoldOK(m, "data")
 		if !present || d == nil {
 			return "nodata"
 		}
-		if i < len(ex.Queries) && isChildQuery(ex.Queries[i]) {
+		if i < len(ex.Queries) && fwIsChildQuery(ex.Queries[i]) {
 			if dm, ok := d.(map[string]interface{}); ok {
 				nv, has := dm["node"]
 				if !has {
@@ -122,7 +122,7 @@ func c09Signal(ex *fed.WireExchange) string {
 	return ""
 }
 
-func lookupFoldOK(m map[string]interface{}, k string) (interface{}, bool) {
+func c09LookupFoldOK(m map[string]interface{}, k string) (interface{}, bool) {
 	if v, ok := m[k]; ok {
 		return v, true
 	}
@@ -134,21 +134,21 @@ func lookupFoldOK(m map[string]interface{}, k string) (interface{}, bool) {
 	return nil, false
 }
 
-func lookupFold(m map[string]interface{}, k string) interface{} {
-	v, _ := lookupFoldOK(m, k)
+func c09LookupFold(m map[string]interface{}, k string) interface{} {
+	v, _ := c09LookupFoldOK(m, k)
 	return v
 }
 
 // scalar leaves of a JSON value, as canonical text
-func leavesOf(v interface{}, out map[string]bool) {
+func fwLeavesOf(v interface{}, out map[string]bool) {
 	switch x := v.(type) {
 	case map[string]interface{}:
 		for _, e := range x {
-			leavesOf(e, out)
+			fwLeavesOf(e, out)
 		}
 	case []interface{}:
 		for _, e := range x {
-			leavesOf(e, out)
+			fwLeavesOf(e, out)
 		}
 	case nil:
 	default:
@@ -157,7 +157,7 @@ func leavesOf(v interface{}, out map[string]bool) {
 	}
 }
 
-func decodeNum(s string) (interface{}, error) {
+func fwDecodeNum(s string) (interface{}, error) {
 	var v interface{}
 	dec := json.NewDecoder(strings.NewReader(s))
 	dec.UseNumber()
@@ -165,7 +165,7 @@ func decodeNum(s string) (interface{}, error) {
 	return v, err
 }
 
-type clientResp struct {
+type fwClientResp struct {
 	OK      bool // well-formed by the oracle's definition
 	Why     string
 	Data    interface{}
@@ -173,14 +173,14 @@ type clientResp struct {
 	Errors  []interface{}
 }
 
-// wellFormed: JSON object with a `data` member (object or null); `errors`, when present, a non-empty array.
-func wellFormed(status int, body string) clientResp {
-	var r clientResp
+// fwWellFormed: JSON object with a `data` member (object or null); `errors`, when present, a non-empty array.
+func fwWellFormed(status int, body string) fwClientResp {
+	var r fwClientResp
 	if status != 200 {
 		r.Why = fmt.Sprintf("status %d", status)
 		return r
 	}
-	v, err := decodeNum(body)
+	v, err := fwDecodeNum(body)
 	if err != nil {
 		r.Why = "body is not JSON: " + err.Error()
 		return r
@@ -212,7 +212,7 @@ func wellFormed(status int, body string) clientResp {
 	return r
 }
 
-func errMessages(es []interface{}) []string {
+func fwErrMessages(es []interface{}) []string {
 	var out []string
 	for _, e := range es {
 		if m, ok := e.(map[string]interface{}); ok {
@@ -259,11 +259,11 @@ func c09ModelDecode(ctx *Ctx, ex *fed.WireExchange) (map[string]interface{}, err
 	req := map[string]interface{}{"op": "c09.decode", "n": ex.N, "transport": ex.TransportErr != "", "status": ex.Status, "url": fed.URL(ex.Service)}
 	child := make([]bool, ex.N)
 	for i := range child {
-		child[i] = i < len(ex.Queries) && isChildQuery(ex.Queries[i])
+		child[i] = i < len(ex.Queries) && fwIsChildQuery(ex.Queries[i])
 	}
 	req["child"] = child
 	if ex.TransportErr == "" {
-		if v, err := decodeNum(ex.Body); err == nil && !trailing(ex.Body) {
+		if v, err := fwDecodeNum(ex.Body); err == nil && !fwTrailing(ex.Body) {
 			req["body"] = v
 			req["json"] = true
 		} else {
@@ -273,7 +273,7 @@ func c09ModelDecode(ctx *Ctx, ex *fed.WireExchange) (map[string]interface{}, err
 	return ctx.Driver.Call(req)
 }
 
-func trailing(s string) bool {
+func fwTrailing(s string) bool {
 	dec := json.NewDecoder(strings.NewReader(s))
 	var v interface{}
 	if dec.Decode(&v) != nil {
@@ -285,7 +285,7 @@ func trailing(s string) bool {
 
 // ---- one gateway-level case -------------------------------------------------------------------
 
-func posClass(p, n int) string {
+func fwPosClass(p, n int) string {
 	switch {
 	case n <= 1:
 		return "only"
@@ -342,7 +342,7 @@ func c09Check(ctx *Ctx, pl *fwPool, idx int, cs c09Case, base *c09Base) {
 	// ---------------- impl vs property oracle ----------------
 	if out.Crash != "" {
 		nontrivial = true
-		fail("property-fails", c09KnownClass(cs, "crash", out.Crash), "CRASH of the gateway process "+crashShort(out.Crash), out.Crash, nil)
+		fail("property-fails", c09KnownClass(cs, "crash", out.Crash), "CRASH of the gateway process "+c09CrashShort(out.Crash), out.Crash, nil)
 		c09ModelOnCrash(ctx, pl, idx, cs, base, out.Crash)
 		return
 	}
@@ -358,7 +358,7 @@ func c09Check(ctx *Ctx, pl *fwPool, idx int, cs c09Case, base *c09Base) {
 		return
 	}
 	nontrivial = len(applied) > 0
-	cr := wellFormed(res.Status, res.Body)
+	cr := fwWellFormed(res.Status, res.Body)
 	if !cr.OK {
 		fail("property-fails", "", "response not well-formed: "+cr.Why, res.Body, nil)
 		return
@@ -381,12 +381,12 @@ func c09Check(ctx *Ctx, pl *fwPool, idx int, cs c09Case, base *c09Base) {
 	// no invention
 	sent := map[string]bool{}
 	for _, ex := range res.Exchanges {
-		if v, err := decodeNum(ex.Body); err == nil {
-			leavesOf(v, sent)
+		if v, err := fwDecodeNum(ex.Body); err == nil {
+			fwLeavesOf(v, sent)
 		}
 	}
 	got := map[string]bool{}
-	leavesOf(cr.Data, got)
+	fwLeavesOf(cr.Data, got)
 	var invented []string
 	for l := range got {
 		if !sent[l] {
@@ -404,7 +404,7 @@ func c09Check(ctx *Ctx, pl *fwPool, idx int, cs c09Case, base *c09Base) {
 	// later requests unaffected
 	if res.FollowPanic != "" || res.FollowHang {
 		fail("property-fails", "", "the following fault-free request panicked or hung: "+res.FollowPanic, nil, nil)
-	} else if hx.Canon(jsonOf(res.FollowBody)) != hx.Canon(jsonOf(base.Body)) {
+	} else if hx.Canon(fwJSONOf(res.FollowBody)) != hx.Canon(fwJSONOf(base.Body)) {
 		fail("property-fails", "", "a following fault-free request no longer gets the fault-free answer",
 			map[string]interface{}{"follow_up": res.FollowBody, "fault_free": base.Body}, nil)
 	}
@@ -412,7 +412,7 @@ func c09Check(ctx *Ctx, pl *fwPool, idx int, cs c09Case, base *c09Base) {
 	if ctx.Driver == nil {
 		return
 	}
-	msgs := errMessages(cr.Errors)
+	msgs := fwErrMessages(cr.Errors)
 	implClasses := map[string]bool{}
 	for _, m := range msgs {
 		if c := c09ClassOf(m); c != "" {
@@ -441,7 +441,7 @@ func c09Check(ctx *Ctx, pl *fwPool, idx int, cs c09Case, base *c09Base) {
 				// parseRespones reports every failing unwrap (as *Error with the insertion point as path):
 				// the messages must coincide
 				var want, got []string
-				for _, mm := range errMessages(asList(m["errors"])) {
+				for _, mm := range fwErrMessages(c09AsList(m["errors"])) {
 					want = append(want, mm)
 					modelClasses[c09ClassOf(mm)] = true
 				}
@@ -452,7 +452,7 @@ func c09Check(ctx *Ctx, pl *fwPool, idx int, cs c09Case, base *c09Base) {
 				}
 				// as SETS: one downstream response fans out to every execution request that was de-duplicated
 				// into it (IndexMap, C12's subject), so the same message can come back several times
-				want, got = uniq(want), uniq(got)
+				want, got = c09Uniq(want), c09Uniq(got)
 				if len(applied) == 1 && hx.Canon(want) != hx.Canon(got) {
 					fail("model-mismatch", "", fmt.Sprintf("node unwrapping: model reports %v, the gateway %v", want, got), res.Body, m)
 					return
@@ -472,7 +472,7 @@ func c09Check(ctx *Ctx, pl *fwPool, idx int, cs c09Case, base *c09Base) {
 						return
 					}
 				}
-				for _, mm := range errMessages(want) {
+				for _, mm := range fwErrMessages(want) {
 					if c := c09ClassOf(mm); c != "" {
 						modelClasses[c] = true
 					}
@@ -499,8 +499,8 @@ func c09Check(ctx *Ctx, pl *fwPool, idx int, cs c09Case, base *c09Base) {
 	}
 }
 
-// crashShort names the pebbles function that panicked first (what distinguishes one defect from another)
-func crashShort(c string) string {
+// c09CrashShort names the pebbles function that panicked first (what distinguishes one defect from another)
+func c09CrashShort(c string) string {
 	parts := strings.Split(c, " | ")
 	msg := strings.TrimPrefix(parts[0], "panic: ")
 	where := ""
@@ -516,7 +516,7 @@ func crashShort(c string) string {
 	return "in " + where + ": " + msg + " [" + strings.Join(parts[1:], " | ") + "]"
 }
 
-func uniq(xs []string) []string {
+func c09Uniq(xs []string) []string {
 	sort.Strings(xs)
 	var out []string
 	for i, x := range xs {
@@ -527,13 +527,13 @@ func uniq(xs []string) []string {
 	return out
 }
 
-func asList(v interface{}) []interface{} {
+func c09AsList(v interface{}) []interface{} {
 	l, _ := v.([]interface{})
 	return l
 }
 
-func jsonOf(s string) interface{} {
-	v, err := decodeNum(s)
+func fwJSONOf(s string) interface{} {
+	v, err := fwDecodeNum(s)
 	if err != nil {
 		return "!unparsable:" + s
 	}
@@ -594,7 +594,7 @@ func c09CheckIsolation(ctx *Ctx, pl *fwPool, idx int, cs c09Case, res fwResult, 
 		fail("property-fails", "", "batch response is not an array of two results", res.Body, nil)
 		return
 	}
-	if hx.Canon(arr[1]) != hx.Canon(jsonOf(o.Res.Body)) {
+	if hx.Canon(arr[1]) != hx.Canon(fwJSONOf(o.Res.Body)) {
 		fail("property-fails", "", "the other operation of the client batch was affected by the fault",
 			map[string]interface{}{"in_batch": arr[1], "alone": o.Res.Body}, nil)
 	}
@@ -674,7 +674,7 @@ func c09Count(ctx *Ctx, o *c09Op, f fed.WireFault, ex *fed.WireExchange) {
 	if f.Mut != nil {
 		kind = "mut:" + f.Mut.How
 	}
-	ctx.Rep.Count(fmt.Sprintf("fault %s | depth %d | position %s", kind, d, posClass(f.Position, ex.N)))
+	ctx.Rep.Count(fmt.Sprintf("fault %s | depth %d | position %s", kind, d, fwPosClass(f.Position, ex.N)))
 }
 
 // c09Placements lists every single-fault placement for one exchange.
@@ -729,7 +729,7 @@ func c09Placements(ctx *Ctx, r *hx.Rand, ex *fed.WireExchange) []fed.WireFault {
 			f.Elem = el
 			out = append(out, f)
 		}
-		if p < len(ex.Queries) && isChildQuery(ex.Queries[p]) {
+		if p < len(ex.Queries) && fwIsChildQuery(ex.Queries[p]) {
 			for _, nv := range []interface{}{5, "x", []interface{}{}, nil, map[string]interface{}{}, true} {
 				f := at(p, "data")
 				f.Elem = map[string]interface{}{"node": nv}
@@ -764,7 +764,7 @@ func c09Baseline(ctx *Ctx, pl *fwPool, cs fwCase) (*c09Base, string) {
 	if out.Crash != "" || out.Timeout || out.Res.Err != "" || out.Res.Panic != "" {
 		return nil, "baseline: " + out.Crash + out.Res.Err + out.Res.Panic
 	}
-	cr := wellFormed(out.Res.Status, out.Res.Body)
+	cr := fwWellFormed(out.Res.Status, out.Res.Body)
 	if !cr.OK || len(cr.Errors) > 0 {
 		return nil, "baseline has errors"
 	}
@@ -827,7 +827,7 @@ func runC09(ctx *Ctx) error {
 		hasChild, maxN := false, 0
 		for _, ex := range base.Exchanges {
 			for _, q := range ex.Queries {
-				if isChildQuery(q) {
+				if fwIsChildQuery(q) {
 					hasChild = true
 				}
 			}
@@ -860,7 +860,7 @@ func runC09(ctx *Ctx) error {
 					ctx.Rep.Count("skipped: " + why)
 					continue
 				}
-				if hx.Canon(jsonOf(b2.Body)) != hx.Canon(jsonOf(base.Body)) {
+				if hx.Canon(fwJSONOf(b2.Body)) != hx.Canon(fwJSONOf(base.Body)) {
 					continue // batching transparency is C11's subject
 				}
 				v.base = b2
@@ -960,7 +960,7 @@ func c09CheckBatch(ctx *Ctx, pl *fwPool, idx int, cs c09Case) {
 	ctx.Rep.Case(cs.key(), fired || out.Crash != "")
 	ctx.Rep.Count("fault in a client batch: " + cs.Faults[0].Kind)
 	if out.Crash != "" {
-		fail("property-fails", c09KnownClass(cs, "crash", out.Crash), "CRASH of the gateway process "+crashShort(out.Crash), out.Crash, nil)
+		fail("property-fails", c09KnownClass(cs, "crash", out.Crash), "CRASH of the gateway process "+c09CrashShort(out.Crash), out.Crash, nil)
 		return
 	}
 	if out.Timeout || out.Res.Hang || out.Res.Panic != "" {
